@@ -54,3 +54,11 @@ Theorem C15_threads_isolated :
 Proof. exact threads_independent. Qed.
 Print Assumptions C15_threads_isolated.
 Print Assumptions C15_restored_after_run.
+
+(** (A) the tie to /repo's current source: every function this property's models were transcribed from has, in the
+    tree this run is checking, the normalised source it had when the models were validated (hashes regenerated from
+    /repo into gen/Generated.v on every run; pins in gen/SourcePins.v).  A change to one of them invalidates the
+    transcription until it is re-validated. *)
+From UsimGen Require SourcePins Pin_C15.
+Theorem C15_modelled_source_unchanged : forallb SourcePins.pin_ok Pin_C15.pins = true.
+Proof. exact Pin_C15.src_unchanged. Qed.
